@@ -14,6 +14,7 @@ V6  a block evaluates to the wires of its last statement
 V7  a call binds the i-th parameter of the called function to the i-th argument and returns the wires of that function's body
 V8  array reads select with push_mux(index bit, element at i + stride, element at i) in both copies of the mux tree
 V9  assignment through tuple / struct accessors writes back at the offset and width recorded when the accessor was read
+V11 both reference evaluators compute xor / and / not of exactly the wires the gate names
 V10 cross-reference: call arguments are lowered in the caller's scope before any parameter is bound (C14-E7)
 """
 from .. import mir
@@ -687,5 +688,82 @@ def rule_v10(ctx):
     return res
 
 
+GATE_SEM = {"Xor": ("binop", "BitXor", 2), "And": ("binop", "BitAnd", 2), "Not": ("unop", "Not", 1)}
+
+
+def rule_v11(ctx):
+    """Both reference evaluators apply the Boolean operation a gate is named after to the wires the gate names."""
+    res = RuleResult("V11", "the evaluators compute xor / and / not of the operands named by the gate")
+    for fid, adt, strip in (("circuit::Circuit::eval", "circuit::Gate", None), ("register_circuit::Circuit::eval", "register_circuit::Op", None)):
+        body = ctx.body(fid)
+        sw = None
+        for b in range(body.n):
+            info = body.switch_info(b)
+            if info and info[2] == adt and info[0]:
+                sw = (b, info)
+        if sw is None:
+            raise AnchorMissing("V11: %s does not switch over %s" % (fid, adt))
+        b0, info = sw
+        for variant, (k, opname, arity) in GATE_SEM.items():
+            succ = body.pruned_succ({info[0]: variant})
+            # blocks reachable from the switch under the assumption, up to the store of the result
+            region = body.reachable([b0], succ=succ)
+            others = set()
+            for v2 in GATE_SEM:
+                if v2 != variant:
+                    others |= body.reachable([b0], succ=body.pruned_succ({info[0]: v2}))
+            mine = region - others
+            ops = []
+            for b in sorted(mine):
+                for st in body.blocks[b]["stmts"]:
+                    if st["k"] == "assign" and st["rv"]["k"] in ("binop", "unop") and body.locals[st["place"]["l"]]["ty"] == "bool":
+                        ops.append((b, st))
+            label = "%s: %s" % (mir.last_seg(fid.rsplit("::", 1)[0]) + "::eval", variant)
+            good = [st for (b, st) in ops if st["rv"]["k"] == k and st["rv"]["op"] == opname]
+            if len(ops) != 1 or len(good) != 1:
+                res.bad(Finding("V11", fid, "%s gate is not evaluated with %s" % (variant, opname), "found %s" % [(st["rv"]["k"], st["rv"]["op"]) for (b, st) in ops], body.term(b0)["sp"]))
+                continue
+            st = good[0]
+            operands = [st["rv"]["l"], st["rv"]["r"]] if k == "binop" else [st["rv"].get("x") or st["rv"].get("operand") or st["rv"].get("op_") or st["rv"].get("o")]
+            fields = []
+            for o in operands:
+                fs = set()
+                if o is None:
+                    continue
+                for p in _index_key_paths(body, o):
+                    for i, seg in enumerate(p):
+                        if seg == "as " + variant:
+                            fs.add(tuple(x for x in p[i + 1:] if x.isdigit()))
+                fields.append(fs)
+            want = [{("0",)}, {("1",)}] if arity == 2 else [{("0",)}]
+            want_wrapped = [{("0", "0")}, {("0", "1")}] if arity == 2 else [{("0", "0")}]
+            if fields in (want, want[::-1], want_wrapped, want_wrapped[::-1]):
+                res.ok({"evaluator": fid, "gate": variant, "verdict": "%s of the wires named by the gate" % opname})
+            else:
+                res.bad(Finding("V11", fid, "%s gate reads the wrong operands" % variant, "operands of %s derive from payload fields %s" % (opname, fields), st["sp"]))
+    return res
+
+
+def _index_key_paths(body, op, depth=4):
+    """Access paths of the keys with which the value `op` was read out of a vector (looks through unwrap / deref / copies)."""
+    out = set()
+    work = [(op, depth)]
+    while work:
+        o, d = work.pop()
+        if o["k"] not in ("copy", "move") or d < 0:
+            continue
+        for (r, p) in body.trace_operand(o, through={}):
+            if r[0] != "call":
+                continue
+            t = body.term(r[1])
+            seg = mir.last_seg(r[2] or "")
+            if seg in ("index", "index_mut", "get", "get_unchecked") and len(t["args"]) >= 2:
+                for (r2, p2) in body.trace_operand(t["args"][1]):
+                    out.add(tuple(p2))
+            elif seg in ("unwrap", "expect", "deref", "clone", "copied", "cloned", "unwrap_or", "unwrap_or_default") and t["args"]:
+                work.append((t["args"][0], d - 1))
+    return out
+
+
 def run(ctx):
-    return ctx.run_rules([rule_v1, rule_v2, rule_v3, rule_v4, rule_v5, rule_v6, rule_v7, rule_v8, rule_v9, rule_v10])
+    return ctx.run_rules([rule_v11, rule_v1, rule_v2, rule_v3, rule_v4, rule_v5, rule_v6, rule_v7, rule_v8, rule_v9, rule_v10])
